@@ -97,6 +97,12 @@ def asEth (p : PTx) : EthTx :=
     to := p.to, value := p.amount.getD 0, data := p.data, access := if p.typ = 0 then [] else p.access,
     v := sigVal p.v, r := sigVal p.r, s := sigVal p.s }
 
+/-- Transaction.WithSignature: a copy with the three signature values replaced -/
+def withSignature (t : EthTx) (v r s : Nat) : EthTx := { t with v := v, r := r, s := s }
+
+/-- MsgEthereumTx.Sign: unwrap, sign, wrap again (`tx.WithSignature` then `FromEthereumTx`) -/
+def signMsg (p : PTx) (v r s : Nat) : Option PTx := fromEth (withSignature (asEth p) v r s)
+
 /-- TxData.Fee: gas × (gasPrice | gasFeeCap) -/
 def PTx.fee (p : PTx) : Nat := (if p.typ = 2 then p.gasFeeCap.getD 0 else p.gasPrice.getD 0) * p.gas
 /-- TxData.Cost: fee + value -/
